@@ -81,7 +81,7 @@ def run_tie2(prop, P, tier, rng, replay=None, facts=None):
             scov['configs'].append('%s/%s' % (cfg, profile))
             cov['evaluations'] += len(cases)
             casemap = dict(cases)
-            nfail = 0
+            nfail = 0; noracle = 0
             for cid, rcode, err in crashes:
                 scov['crashes'] += 1
                 if nfail < 5:
@@ -108,11 +108,12 @@ def run_tie2(prop, P, tier, rng, replay=None, facts=None):
                     if why and len(kn) > 3 and why.startswith(kn[3]): why = None
                 if why:
                     scov['oracle_failures'] += 1
-                    if nfail < 5:
+                    # concrete failing inputs are never crowded out by model/implementation disagreements
+                    if noracle < 5:
                         problems.append(('oracle', '%s: %s' % (cid, why),
                                          dict(kind='impl-counterexample', stream=stream, cfg=cfg, profile=profile, case=ops,
                                               impl_observation=io, model_observation=mo, why=why)))
-                    nfail += 1
+                    noracle += 1
                 elif mo is None or io != mo:
                     scov['disagreements'] += 1
                     if nfail < 5:
@@ -463,7 +464,11 @@ PROPS['C02'] = conc_prop([None, {'thin'}, {'union'}, {'raw'}, None], with_uniq=F
 PROPS['C03'] = conc_prop([{'unique'}, None, {'thin', 'with'}, {'uninit'}, {'unique'}], with_uniq=True)
 PROPS['C08'] = conc_prop([{'unique'}, None, {'raw'}, {'union'}], with_uniq=True)
 PROPS['C09'] = conc_prop([{'unique'}, None, {'unique'}, {'raw'}], with_uniq=True)
-PROPS['C10'] = mech_prop([{'thin', 'with'}, {'thin'}, None, {'thin', 'with'}])
+def c10_side(facts):
+    PT = facts.get('pointers') or {}
+    return [('thin_functions_unchanged', bool((PT.get('forms') or {}).get('thin')), 'differing: %s' % PT.get('diffs')),
+            ('thin_pointee_is_the_zero_length_stand_in', bool(PT.get('thin_pointee_ok')), str(PT.get('thin_pointee')))]
+PROPS['C10'] = mech_prop([{'thin', 'with'}, {'thin'}, None, {'thin', 'with'}], extra_side=c10_side)
 PROPS['C15'] = mech_prop([{'uninit'}, None, {'uninit'}, {'unique'}])
 
 
@@ -971,6 +976,13 @@ def gen_serde(tier, rng):
                 add([2, handle, ty, 0] + v); add([2, handle, ty, base.randrange(1, 9)] + v); add([1, handle, ty, 0] + v)
     for handle in (0, 1):
         for which in range(11): add([3, handle, which])
+    # deserialize_in_place into a handle that (for Arc) has another owner: a fresh sole owner or nothing changes
+    for ty in range(10):
+        for _ in range(4 if tier != 'thorough' else 12):
+            v1 = sv_gen(base, ty); v2 = sv_gen(base, ty, mut=0.15)
+            for handle in (0, 1):
+                for k in (0, 1, 2, 3, 5, 8):
+                    add([4, handle, ty, k] + v1 + v2)
     R = 1500 if tier != 'thorough' else 40000
     for i in range(R):
         ty = rng.randrange(0, 10); v = sv_gen(rng, ty, mut=0.08)
@@ -993,6 +1005,12 @@ def oracle_serde(ops, io, ctx):
         if st == 0 and (count != 1 or unique != 1): return 'deserialised %s<T%d> is not a sole owner: count %d' % (who, op[2], count)
         if st == 0 and extra != 1: return 'deserialising %s<T%d> makes %d allocations more than the payload alone (expected exactly the block)' % (who, op[2], extra if extra < 2 ** 63 else extra - 2 ** 64)
         if st == 1 and extra != 0: return 'deserialising %s<T%d> failed but made %d allocations the payload\'s deserialiser does not make' % (who, op[2], extra if extra < 2 ** 63 else extra - 2 ** 64)
+    if op[0] == 4 and o[0] <= 1 and len(o) >= 9:
+        st, code, at, wit, plc, pc, wc, same, bad = o[:9]
+        if bad: return 'deserialize_in_place into %s<T%d>: %d bad accesses' % (who, op[2], bad)
+        if wit != 1: return 'deserialize_in_place into a shared %s<T%d> (failure at callback %d) changed the value another owner sees' % (who, op[2], op[3])
+        if plc != 1: return 'deserialize_in_place into %s<T%d>: the place holds neither the new value (on success) nor the old one (on error)' % (who, op[2])
+        if st == 0 and (pc != 1 or same != 0): return 'deserialize_in_place into a shared %s<T%d> did not produce a fresh sole owner: count %d, same allocation %d' % (who, op[2], pc, same)
     if op[0] == 3 and len(o) == 7:
         st, same, count, unique, extra, live, bad = o
         if bad or same != 1 or live != 0 or (st == 0 and (count, unique, extra) != (1, 1, 1)) or (st == 1 and extra != 0):
@@ -1152,3 +1170,50 @@ PROPS['C13'] = dict(streams=[PROBES_STREAM], side_obligations=c13_side,
                     assumptions=['rustc enforces trait bounds and lifetimes of the declared signatures on every client program (soundness of the Rust type system and borrow checker); the probes sample that enforcement, the theorems are about the declared bounds and signatures',
                                  'what a second thread can do with each kind of handle (Traits.v, caps) is a hand-written capability table: shared kinds may leave clones behind and destroy or move the payload anywhere; UniqueArc is Box-like',
                                  'the unstable_dropck_eyepatch feature (nightly only) is off'])
+
+
+# destructor-panic cases (C01, C15): part of the ctor stream's case language
+def gen_dpanic(tier, rng):
+    cases = []; n = 0
+    for kind in range(0, 9):
+        for ln in (range(0, 4) if tier != 'thorough' else range(0, 9)):
+            if kind in (0, 4, 5) and ln > 0: continue
+            for k in range(0, ln + 3):
+                cases.append(('D%d' % n, [[20 + kind, ln, k]])); n += 1
+    # the other owner is released DURING the payload's Clone inside unwrap_or_clone / make_mut / make_unique / OffsetArc::make_mut
+    for j in range(0, 4): cases.append(('D%d' % n, [[40 + j, 0, 0]])); n += 1
+    for op in ([29, 1, 0], [20, 40, 0], [45, 1, 1], [40, 1, 0]): cases.append(('D%d' % n, [op])); n += 1
+    return cases
+
+def oracle_dpanic(ops, io, ctx):
+    op = ops[0]; o = io[0]
+    if len(o) < 4 or o[0] > 1: return None
+    parts = ct_split(o)
+    if len(parts) != 3: return 'malformed observation'
+    d = parts[1]
+    if op[0] >= 40:
+        what = ['unwrap_or_clone', 'make_mut', 'make_unique', 'OffsetArc::make_mut'][op[0] - 40] if op[0] < 44 else '?'
+        if any(x in BAD_CT for x in d): return '%s with the other owner released during the clone: access to a dead value' % what
+        if d != [0]: return '%s on a shared value whose other owner is released during the clone: the original value is destroyed %d times (it is neither handed out nor destroyed: lost)' % (what, d.count(0)) if 0 not in d or d.count(0) > 1 else None
+        if parts[2][:1] != [1]: return '%s on a shared value whose other owner is released during the clone: the original block is returned %s times' % (what, parts[2][:1])
+        return None
+    if any(x in BAD_CT for x in d): return 'kind %d: a destructor ran on a value that is not live while the panic unwound' % (op[0] - 20)
+    if len(set(d)) != len(d): return 'kind %d, %d elements, destructor of value %d panics: a value was destroyed twice: %s' % (op[0] - 20, op[1], op[2], d)
+    rel = parts[2][0] if parts[2] else 0
+    if rel == 666666: return 'kind %d: the block was released with a wrong layout or twice while the panic unwound' % (op[0] - 20)
+    if rel != 1: return 'kind %d, %d elements: the destructor of value %d panics while the last handle is released: the block is returned %d times (it leaks)' % (op[0] - 20, op[1], op[2], rel)
+    return None
+
+DPANIC_STREAM = dict(stream='ctor', gen=gen_dpanic, oracle=oracle_dpanic, prep=mech_prep,
+                     nontrivial=lambda ops, io: len(io[0]) > 3 and io[0][0] == 1,
+                     rule='destructor-panic cases: the last handle (Arc<T>, Arc<[T]> from a Vec, ThinArc, Arc<HeaderSlice>, OffsetArc, ArcUnion, Arc<[T]> built through UniqueArc<[MaybeUninit<T>]> and assume_init_slice, a never-assumed-init UniqueArc<HeaderSlice<H,[MaybeUninit<T>]>>, a clone pair) of a block with 0..3 (thorough 0..8) elements is released and the destructor of value k panics, for every k; observation: panic propagated, values destroyed in order, how often the block was returned with its own layout; non-trivial = the panic fired',
+                     cfgs=dict(quick=[('cfg_default', 'debug'), ('cfg_default', 'release')], thorough=[('cfg_default', 'debug'), ('cfg_default', 'release'), ('cfg_nostd', 'release')]))
+PROPS['C01']['streams'] = PROPS['C01']['streams'] + [DPANIC_STREAM]
+PROPS['C15']['streams'] = PROPS['C15']['streams'] + [DPANIC_STREAM]
+PROPS['C09']['streams'] = PROPS['C09']['streams'] + [DPANIC_STREAM]
+PROPS['C08']['streams'] = PROPS['C08']['streams'] + [DPANIC_STREAM]
+PROPS['C01']['assumptions'] = PROPS['C01']['assumptions'] + ['a panicking payload destructor: Rust drop glue destroys the remaining fields and elements while unwinding and Box frees its memory on the unwind path (Ctor.run_dpanic; validated by the destructor-panic cases)']
+
+# C10 also holds for every header/element shape: the thin forms of the ptr stream and the layout stream (thin constructors)
+PTR_STREAM_C10 = dict(PTR_STREAM); PTR_STREAM_C10['ctx'] = dict(report_f3=False)
+PROPS['C10']['streams'] = PROPS['C10']['streams'] + [PTR_STREAM_C10, LAYOUT_STREAM]
